@@ -4,6 +4,7 @@ pub mod c04;
 pub mod c06;
 pub mod c07;
 pub mod c12;
+pub mod c13;
 pub mod c14;
 pub mod c15_16;
 pub mod indic;
@@ -18,6 +19,7 @@ pub fn registry() -> Vec<Box<dyn Property>> {
         Box::new(indic::C10),
         Box::new(indic::C11),
         Box::new(c12::C12),
+        Box::new(c13::C13),
         Box::new(c14::C14),
         Box::new(c15_16::C15),
         Box::new(c15_16::C16),
